@@ -55,3 +55,12 @@ Theorem C06_reject_kept_obj_unchanged :
   forall (F : Type) (lvalidate lto_python : F -> pyval -> res pyval) (ldefault : F -> N -> pyval) (lcallable lflag : F -> bool) (vrun : N -> list (str * pyval) -> bool) (ps : list pstep) (x : xop F) (w : world) (last : kept F) (pre : str) (c : cfg) (dyn : bool) (vs : list N) (fs : list (str * node F)) (w' : world) (last' : kept F) (c' : cfg) (oc1 : oc), match x with | XOp _ => False | _ => True end -> at_path_xs F lvalidate lto_python ldefault lcallable lflag vrun ps w last pre c dyn vs fs x = (w', last', c', oc1) -> oc1 <> OOk -> c' = c.
 Proof. exact reject_kept_obj_unchanged. Qed.
 Print Assumptions C06_reject_kept_obj_unchanged.
+
+From Cinco Require Import ConfigInst ConfigInstLemmas.
+
+(* an item that lives in one list offered to another list over the same item fields (XFrom; covered by reject_kept_obj_unchanged above): refused, BOTH lists are as they were -- witness by computation *)
+
+Theorem C06_moved_item_rejected_both_lists_unchanged :
+  let mk_need := fun z : Z => PDict 0 [(PStr (sa "need"), PInt z)] in let '(w0', c0) := build_cfg leaf lvalidate lto_python ldefault l_callable lflag (vrun []) w0 ex_fs_two in let '(w1, c1, _) := ex_two_step w0' c0 [] (XOp (CSet (sa "a") (PList 0 [mk_need 1%Z; mk_need 2%Z]))) in let '(w2, c2, _) := ex_two_step w1 c1 [] (XOp (CSet (sa "b") (PList 0 [mk_need 3%Z]))) in let '(w3, c3, o3) := ex_two_step w2 c2 [PItem (sa "a") 0] (XOp (CReset (sa "need"))) in let '(w4, c4, o4) := ex_two_step w3 c3 [] (XFrom RAppend (sa "b") [PItem (sa "a") 0]) in let '(w5, c5, o5) := ex_two_step w4 c4 [] (XFrom (RInsert 0) (sa "b") [PItem (sa "a") 0]) in let '(_, c6, o6) := ex_two_step w5 c5 [] (XFrom RAppend (sa "b") [PItem (sa "a") 1]) in o3 = OOk /\ o4 = OErr (EValidation (sa "b[1].need")) /\ c4 = c3 /\ o5 = o4 /\ c5 = c3 /\ o6 = OOk /\ map snd (ids_cfg [] c6) = [0%N; 1%N; 2%N; 3%N; 2%N].
+Proof. exact moved_item_rejected_both_lists_unchanged. Qed.
+Print Assumptions C06_moved_item_rejected_both_lists_unchanged.
